@@ -8,7 +8,7 @@ __email__ = "opensource@pomfort.com"
 """
 
 import os
-import textwrap
+import re
 from timeit import default_timer as timer
 import dateutil.parser
 
@@ -275,7 +275,9 @@ def _write_xml_element_to_file(file, xml_element, indent: str):
 
 
 def _write_xml_string_to_file(file, xml_string: str, indent: str):
-    result = textwrap.indent(xml_string, indent)
+    # indent the lines that start with markup, never the continuation of a text value: textwrap.indent() also splits
+    # at U+2028, U+0085 etc. and put the indentation into file names that contain such a character
+    result = re.sub(r"^(?=[ \t]*<)", indent, xml_string, flags=re.MULTILINE)
     file.write(result.encode("utf-8"))
 
 
